@@ -147,7 +147,7 @@ func genC04(c *Ctx) {
 		}
 	}
 	// 2. black box through real templates
-	forms := []string{"dq", "sq", "unq", "attrname", "tagname", "content", "content", "selfclose", "selfclose-attr", "cond-glued", "cond-glued"}
+	forms := []string{"dq", "sq", "unq", "attrname", "tagname", "content", "content", "selfclose", "selfclose-attr", "cond-glued", "cond-glued", "loop-names", "break-names"}
 	vals := []*Val{{Kind: "s", S: "x"}, {Kind: "s", S: "javascript:alert(1)"}, {Kind: "s", S: "ltr"}, {Kind: "s", S: "async"}, {Kind: "s", S: "_blank"}, {Kind: "s", S: "lazy"},
 		{Kind: "t", Tag: "H", S: "<b>x</b>"}, {Kind: "t", Tag: "S", S: "alert(1)"}, {Kind: "t", Tag: "Y", S: "color:red;"}, {Kind: "t", Tag: "E", S: "p{}"},
 		{Kind: "t", Tag: "U", S: "http://x/"}, {Kind: "t", Tag: "R", S: "https://x/a.js"}, {Kind: "t", Tag: "I", S: "id1"}}
@@ -186,6 +186,11 @@ func genC04(c *Ctx) {
 			text = "<" + e + pick(c, []string{"/", " /", "\t/", " / "}) + ">{{.}}</" + e + ">"
 		case "selfclose-attr":
 			text = "<" + e + " class=\"w\"" + pick(c, []string{"/", " /"}) + ">{{.}}</" + e + ">"
+		case "loop-names":
+			// the loop body ends in the context it started in, but the element open at the action differs per iteration
+			text = "<img {{range .}}" + a + "=\"{{.}}\"{{if .}}><" + e + " {{else}}><img {{end}}{{end}}>"
+		case "break-names":
+			text = "<img {{range .}}><" + e + " {{if .}}{{break}}{{end}}title=\"t\"></" + e + "><img {{end}}" + a + "=\"{{.}}\">"
 		case "cond-glued":
 			// a conditional valueless attribute whose branch ends in white space, the next attribute name glued to {{end}}
 			text = "<" + e + " {{if .}}" + pick(c, []string{"hidden", "disabled", "data-x", "checked"}) + " {{end}}" + a + "=\"{{.}}\">"
@@ -202,10 +207,17 @@ func genC04(c *Ctx) {
 		if hb.add(Step{Op: "parse", H: 0, Text: text}) == "" {
 			continue
 		}
-		r := hb.add(Step{Op: "exec", H: 0, Data: v})
+		data := v
+		if form == "loop-names" || form == "break-names" {
+			data = &Val{Kind: "l", L: []*Val{v, v}}
+		}
+		r := hb.add(Step{Op: "exec", H: 0, Data: data})
 		kind := "s"
 		if v.Kind == "t" {
 			kind = v.Tag
+		}
+		if form == "break-names" {
+			kind = "list" // the action after the loop prints the list itself: never a safe type
 		}
 		c.emit("pol.probe", []string{form, e, a, rel, kind, v.S, hb.hist()}, r, strings.HasPrefix(r, "ok"), "probe-"+form)
 	}
